@@ -4,7 +4,7 @@
 # property statement, evaluated on the library's own outputs.
 import random, struct, collections, os, re
 from fractions import Fraction
-import vlib, tables
+import vlib, tables, gentables
 
 TABLES = ["table_b_bufr", "table_b_bufr-13", "table_b_bufr-31", "table_b_bufr-32", "table_b_bufr-35"]
 DBL_MAX_BITS = "7fefffffffffffff"
@@ -375,6 +375,7 @@ def build_phase2(rng, tier, r_results):
 # ------------------------------------------------------------------ the check
 def run(rep, tier, seed, replay=None):
     rep.level = "proof"
+    gentables.regenerate()        # the finite theorem C08_encode_float_eq_raw_partial quantifies over the shipped tables (GenTables.v)
     proved = vlib.proof_step(rep, "Properties_C08")
     exe = vlib.build_harness("c08")
     drv = vlib.extract_and_build_driver("c08")
